@@ -276,11 +276,27 @@ pub struct ScriptedWriter<'a> {
     pub writes: usize,
     pub pendings: usize,
     pub default_accept: usize,
+    /// a gathering sink: `is_write_vectored()` is true and a vectored write takes its byte budget
+    /// across the slices offered (what a socket's writev does)
+    pub vectored: bool,
+    pub vectored_writes: usize,
 }
 
 impl<'a> ScriptedWriter<'a> {
     pub fn new(script: &'a [WStep]) -> ScriptedWriter<'a> {
-        ScriptedWriter { got: Vec::new(), script, sp: 0, fault: None, fault_fired: false, writes: 0, pendings: 0, default_accept: usize::MAX }
+        ScriptedWriter { got: Vec::new(), script, sp: 0, fault: None, fault_fired: false, writes: 0, pendings: 0, default_accept: usize::MAX, vectored: false, vectored_writes: 0 }
+    }
+    pub fn gathering(mut self) -> Self {
+        self.vectored = true;
+        self
+    }
+    fn service_vectored(&mut self, bufs: &[io::IoSlice<'_>], waker: Option<&Waker>) -> Poll<io::Result<usize>> {
+        self.vectored_writes += 1;
+        let mut cat = Vec::new();
+        for b in bufs {
+            cat.extend_from_slice(b);
+        }
+        self.service(&cat, waker)
     }
     pub fn with_fault(mut self, pos: usize, f: WFault) -> Self {
         self.fault = Some((pos, f));
@@ -335,6 +351,20 @@ impl<'a> AsyncWrite for ScriptedWriter<'a> {
         let w = cx.waker().clone();
         self.get_mut().service(buf, Some(&w))
     }
+    fn poll_write_vectored(self: Pin<&mut Self>, cx: &mut Context<'_>, bufs: &[io::IoSlice<'_>]) -> Poll<io::Result<usize>> {
+        let w = cx.waker().clone();
+        let me = self.get_mut();
+        if me.vectored {
+            me.service_vectored(bufs, Some(&w))
+        } else {
+            // tokio's default: the first non-empty slice
+            let first = bufs.iter().find(|b| !b.is_empty()).map(|b| &**b).unwrap_or(&[]);
+            me.service(first, Some(&w))
+        }
+    }
+    fn is_write_vectored(&self) -> bool {
+        self.vectored
+    }
     fn poll_flush(self: Pin<&mut Self>, _cx: &mut Context<'_>) -> Poll<io::Result<()>> {
         Poll::Ready(Ok(()))
     }
@@ -346,6 +376,18 @@ impl<'a> AsyncWrite for ScriptedWriter<'a> {
 impl<'a> io::Write for ScriptedWriter<'a> {
     fn write(&mut self, buf: &[u8]) -> io::Result<usize> {
         match self.service(buf, None) {
+            Poll::Ready(r) => r,
+            Poll::Pending => unreachable!("sync sink never pends"),
+        }
+    }
+    fn write_vectored(&mut self, bufs: &[io::IoSlice<'_>]) -> io::Result<usize> {
+        let r = if self.vectored {
+            self.service_vectored(bufs, None)
+        } else {
+            let first = bufs.iter().find(|b| !b.is_empty()).map(|b| &**b).unwrap_or(&[]);
+            self.service(first, None)
+        };
+        match r {
             Poll::Ready(r) => r,
             Poll::Pending => unreachable!("sync sink never pends"),
         }
